@@ -713,6 +713,30 @@ def rule_lzma_header(facts):
         okm = oarm.get("WriteToHeader") is not None and none_edge is not None and \
             (cf_.dominates(oarm["WriteToHeader"], inner.idx) or oarm["WriteToHeader"] == inner.idx) and \
             all(cf_.dominates(none_edge, e.idx) or none_edge == e.idx for e in ebs) and len(cf_.pred[none_edge]) == 1
+        if not okm and adtu:
+            # the decision may go through a materialised bool (`matches!(.., WriteToHeader(None))`): walk finish under each value
+            # of the option and see whether the marker's first bit is reached
+            try:
+                ptf_ = PosTerms(f)
+                vidx = {v["name"].split("::")[-1]: i for i, v in enumerate(adtu["variants"])}
+                marks = {e.idx for e in ebs}
+                verdicts = []
+                for var_, opt_ in (("WriteToHeader", 0), ("WriteToHeader", 1), ("SkipWritingToHeader", None)):
+                    def lfm(q, var_=var_, opt_=opt_):
+                        if q[0] == "discr":
+                            inner = q[1]
+                            while isinstance(inner, tuple) and inner and inner[0] in ("ref", "deref"):
+                                inner = inner[1]
+                            if isinstance(inner, tuple) and inner and inner[0] == "field" and inner[1] == "unpacked_size":
+                                return vidx[var_]
+                            if pat.has_field(inner, "unpacked_size") and opt_ is not None:
+                                return opt_
+                        raise pat.NotEvaluable(q)
+                    got_ = pat.reached_under(f, ptf_, 0, lfm, marks | set(cf_.returns), strict=True)
+                    verdicts.append(bool(got_ & marks))
+                okm = verdicts == [True, False, False]
+            except (pat.NotEvaluable, pat.Overflow):
+                pass
         if okm:
             r.ok("control-dependence", {"end marker": "iff WriteToHeader(None)"})
         else:
